@@ -6,7 +6,7 @@ From Coq Require Import String.
 From Coq Require Import List Arith ZArith.
 Import ListNotations.
 From YP Require Import Base.Str Term.Term Term.Fast Unify.Unify Unify.Fast Lang.Ast Comp.IR Comp.CompileBody Comp.CompileClause
-  Sem.Res Sem.RefSem Sem.IRSem Sem.ControlCorrect Sem.Machine Sem.ClauseSem Sem.ProgramCorrect Sem.SpecLemmas.
+  Sem.Res Sem.RefSem Sem.IRSem Sem.ControlCorrect Sem.Machine Sem.ClauseSem Sem.ProgramCorrect Sem.SpecLemmas Sem.FindallShare.
 Local Open Scope string_scope.
 Local Open Scope list_scope.
 
@@ -69,6 +69,17 @@ Theorem C09_findall_at_most_once : forall call t g l s r,
   builtin call (s_ "findall") [t; g; l] s = Some r -> length (fst r) <= 1.
 Proof. exact findall_at_most_once. Qed.
 Print Assumptions C09_findall_at_most_once.
+
+(* ... and ONLY those: an unbound variable of the caller that occurs in an instance is not copied, it is the caller's
+   variable itself inside the list (this engine's findall/3; standard Prolog collects renamed copies).  Witness, on the
+   compiled-code model and on the clause-level reference:  t(V) :- findall(X, X = V, [b]).   ?- t(V).   answers V = b
+   (reported as a finding in notes/C09.md; the implementation answers V = b as well). *)
+Theorem C09_findall_shares_caller_variables :
+  exists ir, compile_program share_prog = Some ir /\
+  map (fun x => den (sto x) (TVar 0)) (fst (query 10 ir (d "t") [TVar 0] {| sto := []; nxt := 1 |})) = [TAtom (d "b")] /\
+  map (fun x => den (sto x) (TVar 0)) (fst (solveA 10 share_prog (d "t") [TVar 0] {| sto := []; nxt := 1 |})) = [TAtom (d "b")].
+Proof. exact findall_shares_caller_variables. Qed.
+Print Assumptions C09_findall_shares_caller_variables.
 
 (* X = Y has the answers of unification (C02) *)
 Theorem C09_eq_spec : forall call a b s, builtin call (s_ "=") [a; b] s = Some (unify_st s a b).
